@@ -105,8 +105,8 @@ type Rep interface {
 }
 
 type base struct {
-	caseType string // regress directory / case shape ("C19", "C19Ann", ...), "" = same as id
-	self Rep // the H or P this base belongs to (lets finish report a panic of the code under test as a violation)
+	caseType   string // regress directory / case shape ("C19", "C19Ann", ...), "" = same as id
+	self       Rep    // the H or P this base belongs to (lets finish report a panic of the code under test as a violation)
 	id         string
 	r          *stats.Rec
 	fp         strings.Builder
